@@ -376,6 +376,25 @@ package keeper
 //@   pure
 //@   ensures @found_only err == nil ==> validBech32(req.ReceiverAddr) && validBech32(req.SenderAddr) && strHas(str_store, bytesval(addrOf(req.ReceiverAddr)), bytesval(addrOf(req.SenderAddr)))
 //@   ensures @names_as_requested err == nil ==> resp.Stream.Receiver == req.ReceiverAddr && resp.Stream.Sender == req.SenderAddr
+//@   ensures @stored_stream err == nil ==> strGet(str_store, bytesval(addrOf(req.ReceiverAddr)), bytesval(addrOf(req.SenderAddr))) == deref(resp.Stream.Stream)
+//@   ensures @found_iff_stored !ptrnil(req) && validBech32(req.ReceiverAddr) && validBech32(req.SenderAddr) && 1 <= len(addrOf(req.ReceiverAddr)) && len(addrOf(req.ReceiverAddr)) <= 255 && 1 <= len(addrOf(req.SenderAddr)) && len(addrOf(req.SenderAddr)) <= 255 ==> (err == nil) == strHas(str_store, bytesval(addrOf(req.ReceiverAddr)), bytesval(addrOf(req.SenderAddr)))
+
+// the parameters served are the stored ones
+//@ func Keeper.Params(goCtx, req) (resp, err)
+//@   props C16 C20
+//@   pure
+//@   ensures (err == nil) == !ptrnil(req)
+//@   ensures err == nil && strParamsSet(str_store) ==> resp.Params == strParams(str_store)
+
+// the current flow of a stream: its configured rate while it is funded and its deposit-zero time has not passed, else 0
+//@ func Keeper.StreamReceiverSenderCurrentFlow(c, req) (resp, err)
+//@   props C20 C11
+//@   pure
+//@   requires STR_WF(str_store)
+//@   let st := strGet(str_store, bytesval(addrOf(req.ReceiverAddr)), bytesval(addrOf(req.SenderAddr)))
+//@   ensures @found_only err == nil ==> validBech32(req.ReceiverAddr) && validBech32(req.SenderAddr) && strHas(str_store, bytesval(addrOf(req.ReceiverAddr)), bytesval(addrOf(req.SenderAddr)))
+//@   ensures @configured_rate_as_stored err == nil ==> resp.ConfiguredFlowRate == st.FlowRate
+//@   ensures @current_rate err == nil ==> resp.CurrentFlowRate == ((UnixNs(st.DepositZeroTime) < UnixNs(blockTime(c)) || Amt(st.Deposit) == 0) ? 0 : st.FlowRate)
 
 // ================================================================ genesis import (C10, C15)
 //
